@@ -20,9 +20,15 @@ CELL_KINDS = ['cubic', 'ortho', 'mono', 'hex60', 'hex120', 'truncoct', 'rhombdod
 
 def _gen_key(rng):
     k = rng.weighted([('int', 3), ('negint', 2), ('slice', 4), ('rslice', 2), ('stepslice', 2), ('array', 3), ('mask', 2),
-                      ('list', 2), ('negarray', 2), ('negslice', 2)])
+                      ('list', 2), ('negarray', 2), ('negslice', 2), ('npint', 3), ('ellipsis', 1), ('range', 1)])
     if k in ('int', 'negint'):
         return {'k': k, 'v': rng.below(1 << 12)}
+    if k == 'npint':
+        return {'k': k, 'v': rng.below(1 << 12), 'as': rng.choice(['int64', 'int32', 'uint8', 'neg64', '0d'])}
+    if k == 'ellipsis':
+        return {'k': k}
+    if k == 'range':
+        return {'k': k, 'a': rng.below(1 << 12), 'b': rng.below(1 << 12), 's': rng.choice([1, 2])}
     if k in ('slice', 'stepslice', 'rslice'):
         return {'k': k, 'a': rng.below(1 << 12), 'b': rng.below(1 << 12), 's': rng.choice([1, 2, 3]) if k != 'slice' else 1,
                 'open': rng.choice(['', 'a', 'b', 'ab'])}
@@ -108,6 +114,7 @@ def generate(check, rng, tier, run_index):
         elif k == 'save_load':
             o['fmt'] = rng.choice(CELL_FORMATS)
             o['few_atoms'] = rng.weighted([(0, 6), (1, 1), (2, 2), (3, 1)])     # boundary sizes: save only the first 1-3 atoms
+            o['all_frames'] = rng.chance(0.5)        # restart formats: save every frame (numbered files) instead of the first only
         ops.append(o)
     return {'check': check, 'n_res': n_res, 'n_wat': n_wat, 'members': members, 'ops': ops}
 
@@ -246,6 +253,22 @@ def resolve_key(key, n):
         return int(key['v'] % n)
     if k == 'negint':
         return -1 - int(key['v'] % n)
+    if k == 'npint':
+        # a numpy integer scalar (what np.argmin, np.arange(...)[i], rng.integers return) or a 0-d array
+        v = int(key['v'] % n)
+        how = key['as']
+        if how == 'neg64':
+            return np.int64(-1 - v)
+        if how == '0d':
+            return np.array(v)
+        return getattr(np, how)(v % 256 if how == 'uint8' else v)
+    if k == 'ellipsis':
+        return Ellipsis
+    if k == 'range':
+        a, b = sorted((key['a'] % (n + 1), key['b'] % (n + 1)))
+        if a == b:
+            a, b = 0, n
+        return range(a, b, key['s'])
     if k in ('slice', 'stepslice', 'rslice'):
         a, b = sorted((key['a'] % (n + 1), key['b'] % (n + 1)))
         if a == b:
@@ -953,6 +976,40 @@ def execute(check, case, workdir):
                 ok = True
                 ts = t
                 msrc = m
+                if fmt in ('rst7', 'ncrst') and m.n > 1 and op.get('all_frames') and not (fmt == 'rst7' and m.xyz.shape[1] == 2):
+                    # several frames go to numbered files name.1 .. name.N (zero-padded): each must hold its own frame's cell
+                    res.probe('restart_all_frames_saved')
+                    bad = False
+                    try:
+                        t.save(p)
+                    except Exception as e:
+                        res.probe('save_refused:' + flags)
+                        res.log.append('%d save_load(%s, all frames) m%d save raised %s' % (stepno, fmt, m.id, type(e).__name__))
+                        res.trace.append(('save_load_all', fmt, m.complete, False))
+                        continue
+                    width = len(str(m.n))
+                    loader = md.load_restrt if fmt == 'rst7' else md.load_ncrestrt
+                    for fi in range(m.n):
+                        pk = '%s.%0*d' % (p, width, fi + 1)
+                        try:
+                            r = loader(pk, top=t.topology)
+                        except Exception as e:
+                            if judge17 and m.complete:
+                                viol('save_load', 'unloadable', {'file': os.path.basename(pk), 'error': '%s: %s' % (type(e).__name__, str(e)[:200])}, stepno, flags + ',numbered')
+                            bad = True
+                            break
+                        if not judge_cell_completeness(r, m.complete, 'save_load', stepno, flags + ',numbered'):
+                            bad = True
+                            break
+                        if judge17 and m.complete and (not np.allclose(r.unitcell_lengths[0], m.L[fi], rtol=2e-3, atol=2e-3)
+                                                       or not np.allclose(r.unitcell_angles[0], m.A[fi], atol=5e-2)):
+                            viol('save_load', 'cell_values', {'frame': fi, 'saved_L': m.L[fi].tolist(), 'loaded_L': r.unitcell_lengths[0].tolist(),
+                                                              'saved_A': m.A[fi].tolist(), 'loaded_A': r.unitcell_angles[0].tolist()}, stepno, flags + ',numbered')
+                            bad = True
+                            break
+                    res.log.append('%d save_load(%s, all %d frames) m%d' % (stepno, fmt, m.n, m.id))
+                    res.trace.append(('save_load_all', fmt, m.complete, not bad))
+                    continue
                 if fmt in ('rst7', 'ncrst') and m.n > 1:
                     ts = t[0]          # restart files hold one frame (several frames go to numbered files)
                     msrc = Member(ts, m.xyz[:1], m.time[:1], None if m.L is None else m.L[:1], None if m.A is None else m.A[:1], m.labels)
